@@ -1,0 +1,31 @@
+//go:build verif
+
+package shape
+
+import "github.com/trajectoryjp/spatial_id_go/v4/common/object"
+
+// Re-exports of unexported helpers for the verification harness. Forwarding only.
+
+func VerifGetHorizontalTileIdOnPoint(lon float64, lat float64, hZoom int64) string {
+	return getHorizontalTileIdOnPoint(lon, lat, hZoom)
+}
+
+func VerifGetVerticalTileIdOnAltitude(alt float64, vZoom int64) string {
+	return getVerticalTileIdOnAltitude(alt, vZoom)
+}
+
+func VerifGetAltitudeOnVerticalIndexAndZoom(altIndex int64, vZoom int64) object.VerticalPoint {
+	return getAltitudeOnVerticalIndexAndZoom(altIndex, vZoom)
+}
+
+func VerifGetVertexOnVoxelOffset(lonIndex int64, latIndex int64, hZoom int64, vPoint object.VerticalPoint) []*object.Point {
+	return getVertexOnVoxelOffset(lonIndex, latIndex, hZoom, vPoint)
+}
+
+func VerifGetCenterPointOnVoxelOffset(lonIndex int64, latIndex int64, hZoom int64, vPoint object.VerticalPoint) *object.Point {
+	return getCenterPointOnVoxelOffset(lonIndex, latIndex, hZoom, vPoint)
+}
+
+func VerifGetExtendedSpatialIdAttrs(extendedSpatialId string) ([]int64, error) {
+	return getExtendedSpatialIdAttrs(extendedSpatialId)
+}
